@@ -71,6 +71,7 @@ func (actorSelf *ActorDef[T]) Send(message T) {
 	defer func() {
 		recover()
 	}()
+	verifPoint("actor.send.afterClosedCheck")
 
 	actorSelf.ch <- message
 }
@@ -106,6 +107,7 @@ func (actorSelf *ActorDef[T]) GetID() time.Time {
 // Close Close the Actor
 func (actorSelf *ActorDef[T]) Close() {
 	actorSelf.isClosed.Set(true)
+	verifPoint("actor.close.afterFlag")
 
 	close(actorSelf.ch)
 }
@@ -180,6 +182,7 @@ func (askSelf *AskDef[T, R]) AskOnceWithTimeout(target ActorHandle[interface{}],
 		close(ch)
 	case <-time.After(timeout):
 		// Do not close ch: the actor might still Reply() later (it would be discarded)
+		verifPoint("ask.timeout.fired")
 		close(askSelf.done)
 		return result, ErrActorAskTimeout
 	}
@@ -196,6 +199,7 @@ func (askSelf *AskDef[T, R]) AskChannel(target ActorHandle[interface{}]) chan R 
 
 // Reply Receiver Reply
 func (askSelf *AskDef[T, R]) Reply(response R) {
+	verifPoint("ask.reply.beforeSend")
 	select {
 	case askSelf.ch <- response:
 	case <-askSelf.done:
